@@ -175,12 +175,17 @@ def restrict(r, x, y):
 def body_path(desc, F, *args):
     KNOWN_NEG_INV[0] = bool(desc.get("model_known_neg_inv"))
     g = CountingGraph()
+    members = None
+    if desc.get("target") == "aggregate":
+        # ReadOnlyGraphAggregate over two member graphs; edge number k lives in member k % 2
+        from rdflib.graph import ReadOnlyGraphAggregate
+        members = [CountingGraph(), CountingGraph()]
     edges = []
     i = 0
-    for pn in desc["edges"]:
+    for k, pn in enumerate(desc["edges"]):
         s, o = F.node(args[i]), F.node(args[i + 1])
         i += 2
-        g.add((s, PRED[pn], o))
+        (members[k % 2] if members else g).add((s, PRED[pn], o))
         if not tin((s, pn, o), [(a, b, c) for a, b, c in edges]):
             edges.append((s, pn, o))
     x = y = None
@@ -203,7 +208,12 @@ def body_path(desc, F, *args):
     if ast[0] == "mul" and ast[2] in "*?":
         lo_rel = union(lo_rel, [(t, t) for t in given])
     lo = restrict(lo_rel, x, y)
-    g.budget = 600
+    if members:
+        for m in members:
+            m.budget = 600
+        g = ReadOnlyGraphAggregate(members)
+    else:
+        g.budget = 600
     api = desc.get("api", "triples")
     try:
         if api == "triples":
@@ -411,6 +421,14 @@ def obligations(tier, seed):
                     apis = API[ends] if (tier == "thorough" or n == 2) else ["triples"]
                     for api in apis[:1] if n == 3 else apis:
                         add(ast, es, ends, api, 150 if n < 3 else 900)
+    # the same through ReadOnlyGraphAggregate.triples, the edges spread over two member graphs
+    for ast in DEPTH1:
+        for es in edge_shapes(ast, 2)[: 1 if tier == "quick" else 4]:
+            for ends in ENDS:
+                nsym = 2 * len(es) + ends.count("b")
+                obs.append(dict(oid="path-aggregate/%s/%s/%s" % (show(ast), "".join(es), ends), family="path",
+                                desc={"path": ast, "edges": es, "ends": ends, "api": "triples", "target": "aggregate"},
+                                sig=[("x%d" % i, "i") for i in range(nsym)], budget=200))
     # the SPARQL route (parser -> translatePath -> evalBGP), symbolic IRIs and symbolic integer literals as nodes/ends
     for ast in DEPTH1:
         for kind in ("I", "L"):
@@ -451,7 +469,8 @@ def obligations(tier, seed):
 def bounds(tier):
     return {"path": "all 12 depth<=1 expressions over predicates p,q x every multiset of edge predicates for n<=2 edges%s x 4 "
                     "bound/unbound combinations x Graph.triples/subjects/objects/subject_objects; %s depth-2 expressions with n=2%s; "
-                    "edge end points and bound terms symbolic (incl. falsy, incl. terms absent from the graph)"
+                    "edge end points and bound terms symbolic (incl. falsy, incl. terms absent from the graph); the depth<=1 expressions also through "
+                    "ReadOnlyGraphAggregate.triples with the edges spread over two member graphs"
                     % ("" if tier == "quick" else " (n=3 sampled)", "24 seeded of %d" % len(depth2()) if tier == "quick" else "all %d" % len(depth2()),
                        "" if tier == "quick" else " and 30 with n=3"),
             "sparql-path": "the 12 depth<=1 expressions as SPARQL triple patterns (text -> rdflib parser -> translatePath -> evalBGP), n=2 edges, "
